@@ -19,6 +19,12 @@ pub fn run(args: &Args) {
     for id in [b"-TR0072-aaaaaaaaaaaa", b"M7-10-5--aaaaaaaaaaa", b"abc-aaaaaaaaaaaaaaaa", b"\xff\xff\xff\xff\xff\xff\xff\xff\xff\xff\xff\xff\xff\xff\xff\xff\xff\xff\xff\xff"] {
         let _ = format!("{}", PeerId(*id).client());
     }
+    let http_cfg_plain = aquatic_http::config::Config::default();
+    let http_cfg_proxy = {
+        let mut c = aquatic_http::config::Config::default();
+        c.network.runs_behind_reverse_proxy = true;
+        c
+    };
     crate::drive(args, 0xf022, |rng, _keep, _seed, header, items| {
         *header = "true".to_string();
         // one message per case nested as deep as websocket_max_message_size (64 KiB by default)
@@ -52,10 +58,44 @@ pub fn run(args: &Args) {
             let input: Vec<u8> = match kind {
                 0 => random_bytes(rng, 120),
                 1 => {
-                    // peer ids: azureus style, shadow style, mainline, random
-                    let mut id = random_bytes(rng, 0);
-                    let pre: &[&[u8]] = &[b"-qB4250-", b"-TR0072-", b"-WW0102-", b"-UT355S-", b"M7-10-5-", b"M4-4-0--", b"-lt0D60-", b"-\xff\xff\xff\xff\xff\xff-", b"--------", b"-AZ"];
-                    id.extend_from_slice(*rng.pick(pre));
+                    // peer ids: azureus style (-XXnnnn-), mainline style (Xn-n-n--), other dashed
+                    // prefixes, fixed well-known ones - each character class drawn at random
+                    let alnum = b"0123456789ABCDEFGHIJKLMNOPQRSTUVWXYZabcdefghijklmnopqrstuvwxyz";
+                    let letters = b"ABCDEFGHIJKLMNOPQRSTUVWXYZabcdefghijklmnopqrstuvwxyz";
+                    let mut id: Vec<u8> = Vec::new();
+                    match rng.below(5) {
+                        0 => {
+                            id.push(b'-');
+                            for _ in 0..2 {
+                                id.push(*rng.pick(letters));
+                            }
+                            for _ in 0..3 {
+                                id.push(b'0' + rng.below(10) as u8);
+                            }
+                            id.push(*rng.pick(alnum));
+                            if rng.chance(3, 4) {
+                                id.push(b'-');
+                            }
+                        }
+                        1 => {
+                            id.push(*rng.pick(letters));
+                            for _ in 0..6 {
+                                id.push(*rng.pick(b"0123456789-"));
+                            }
+                            id.push(b'-');
+                        }
+                        2 => {
+                            for _ in 0..(1 + rng.below(12)) {
+                                id.push(*rng.pick(b"0123456789ABCDEFGHIJKLMNOPQRSTUVWXYZabcdefghijklmnopqrstuvwxyz-"));
+                            }
+                            id.push(b'-');
+                        }
+                        3 => {
+                            let pre: &[&[u8]] = &[b"-qB4250-", b"-TR0072-", b"-WW0102-", b"-UT355S-", b"M7-10-5-", b"M4-4-0--", b"-lt0D60-", b"-\xff\xff\xff\xff\xff\xff-", b"--------", b"-AZ", b"-BT7a5S-", b"-DE13F0-", b"-TR300Z-", b"-FD51\xc3\xa9-"];
+                            id.extend_from_slice(*rng.pick(pre));
+                        }
+                        _ => {}
+                    }
                     while id.len() < 20 {
                         id.push(rng.below(256) as u8);
                     }
@@ -83,7 +123,13 @@ pub fn run(args: &Args) {
                         let parts: &[&[u8]] = &[b"info_hash=", b"=", b"&", b"%", b"%f", b"%zz", b"port=", b"key=", b"\xff\xfe", b"aaaa", b"compact=1", b"left=", b"numwant=-1", b"?"];
                         s.extend_from_slice(*rng.pick(parts));
                     }
-                    s.extend_from_slice(b" HTTP/1.1\r\nHost: x\r\n\r\n");
+                    s.extend_from_slice(b" HTTP/1.1\r\nHost: x\r\n");
+                    for _ in 0..rng.below(4) {
+                        let hs: &[&[u8]] = &[b"X-Forwarded-For: 1.2.3.4\r\n", b"X-Forwarded-For: \r\n", b"X-Forwarded-For: ,,,\r\n", b"X-Forwarded-For: ::ffff:1.2.3.4, zz\r\n",
+                                            b"X-Forwarded-For: \xff\xfe\r\n", b"X-Forwarded-For: 1.2.3.4,\r\n", b"x-forwarded-for: 9.9.9.9\r\n", b"X-Forwarded-For:1.2.3.4 , 5.6.7.8\r\n"];
+                        s.extend_from_slice(*rng.pick(hs));
+                    }
+                    s.extend_from_slice(b"\r\n");
                     s
                 }
                 5 => {
@@ -119,6 +165,9 @@ pub fn run(args: &Args) {
             measure(&mut || drop(aquatic_udp_protocol::Response::parse_bytes(&input, true)));
             measure(&mut || drop(aquatic_udp_protocol::Response::parse_bytes(&input, false)));
             measure(&mut || drop(aquatic_http_protocol::request::Request::parse_bytes(&input)));
+            // the http socket worker's parser (hook H5), not behind and behind a reverse proxy
+            measure(&mut || drop(aquatic_http::verif::parse_request(&http_cfg_plain, &input)));
+            measure(&mut || drop(aquatic_http::verif::parse_request(&http_cfg_proxy, &input)));
             if let Ok(text) = std::str::from_utf8(&input) {
                 measure(&mut || drop(aquatic_http_protocol::request::Request::parse_http_get_path(text)));
                 let m = tungstenite::Message::text(text.to_string());
